@@ -182,26 +182,40 @@ def run_driver(lines: list[str], timeout: int = 3000) -> list[str]:
     ok, out = lean_build()
     if not ok:
         raise RuntimeError("lake build failed:\n" + out)
-    wd = workdir()
-    inp = wd / f"ops-{len(lines)}-{time.time_ns()}.txt"
     for ln in lines:
         if "\n" in ln:
             raise ValueError("newline in op line")
-    inp.write_text("".join(ln + "\n" for ln in lines))
     exe = LEAN / ".lake" / "build" / "bin" / "driver"
     # the compiled driver (built by `lake build`, nothing it imports touches Mathlib); interpreter as fallback
     cmd = [str(exe)] if exe.exists() else ["lake", "env", "lean", "--run", "Driver.lean"]
-    with open(inp) as fh:
-        p = subprocess.run(cmd, cwd=LEAN, stdin=fh, capture_output=True, text=True, timeout=timeout)
-    inp.unlink(missing_ok=True)
-    if p.returncode != 0:
-        raise RuntimeError("Lean driver failed: " + (p.stderr or p.stdout)[-2000:])
-    res = p.stdout.split("\n")
-    if res and res[-1] == "":
-        res.pop()
-    if len(res) != len(lines):
-        raise RuntimeError(f"driver answered {len(res)} lines for {len(lines)} ops")
-    return res
+
+    def one(chunk: list[str], tag: int) -> list[str]:
+        inp = workdir() / f"ops-{len(chunk)}-{tag}-{time.time_ns()}.txt"
+        inp.write_text("".join(ln + "\n" for ln in chunk))
+        with open(inp) as fh:
+            p = subprocess.run(cmd, cwd=LEAN, stdin=fh, capture_output=True, text=True, timeout=timeout)
+        inp.unlink(missing_ok=True)
+        if p.returncode != 0:
+            raise RuntimeError("Lean driver failed: " + (p.stderr or p.stdout)[-2000:])
+        res = p.stdout.split("\n")
+        if res and res[-1] == "":
+            res.pop()
+        if len(res) != len(chunk):
+            raise RuntimeError(f"driver answered {len(res)} lines for {len(chunk)} ops")
+        return res
+
+    # the driver answers line by line and keeps no state, so a long stream is cut into interleaved chunks answered in parallel
+    jobs = min(16, os.cpu_count() or 1, max(1, len(lines) // 1500))
+    if jobs <= 1:
+        return one(lines, 0)
+    from concurrent.futures import ThreadPoolExecutor
+    chunks = [lines[i::jobs] for i in range(jobs)]
+    with ThreadPoolExecutor(max_workers=jobs) as ex:
+        parts = list(ex.map(one, chunks, range(jobs)))
+    out: list[str] = [""] * len(lines)
+    for i, part in enumerate(parts):
+        out[i::jobs] = part
+    return out
 
 
 # --------------------------------------------------------------------------- results
@@ -259,6 +273,25 @@ class Run:
         self.assumptions: list[str] = []
         self.proof: dict[str, object] = {}
         self.rng = random.Random(seed * 1000003 + int(hashlib.sha1(prop.encode()).hexdigest()[:6], 16))
+        self.shard = (0, 1)     # (index, count): the thorough tier splits its workload over worker processes
+
+    # -- sharding ---------------------------------------------------------------------
+    def set_shard(self, index: int, count: int) -> None:
+        self.shard = (index, count)
+        if count > 1:
+            self.rng = random.Random(f"{self.seed}/{self.prop}/{index}/{count}")
+
+    def size(self, n: int) -> int:
+        """this worker's share of a random stream of n cases"""
+        return -(-n // self.shard[1])
+
+    def mine(self, idx: int) -> bool:
+        """does item idx of an enumerated (exhaustive) stream belong to this worker?"""
+        return idx % self.shard[1] == self.shard[0]
+
+    @property
+    def first(self) -> bool:
+        return self.shard[0] == 0
 
     # -- correspondence -----------------------------------------------------------
     def add(self, case: Case) -> None:
